@@ -39,7 +39,7 @@ _BASE = {}
 
 def _cfg(params, n_tasks):
     return dict(backend=params["backend"], n_workers=params.get("n_workers", 2), pre_dispatch=params.get("pre_dispatch", 3),
-                batch_size=params.get("batch_size", 1), return_as=params.get("return_as", "list"),
+                verbose=params.get("verbose", 0), batch_size=params.get("batch_size", 1), return_as=params.get("return_as", "list"),
                 calls=[dict(n_tasks=n_tasks)], durations=params.get("durations", ()), stmt=params.get("stmt", False))
 
 
@@ -52,7 +52,7 @@ def prepare(params):
         _BASE["steps"][n] = o.steps + 6
 
 
-def check_outcome(o, n_tasks, return_as):
+def check_outcome(o, n_tasks, return_as, second=None):
     probs = []
     if o.hang:
         probs.append("hang: %s" % o.hang)
@@ -72,6 +72,14 @@ def check_outcome(o, n_tasks, return_as):
                 probs.append("results %r are not a permutation of %r" % (got, want))
         elif got != want:
             probs.append("results %r, expected %r" % (got, want))
+    if second is not None:
+        want2 = [(1, i) for i in range(second)]
+        if len(o.calls) < 2 or o.calls[1]["exc"] is not None or list(o.calls[1]["result"] or []) != want2:
+            probs.append("second call: %r" % (o.calls[1] if len(o.calls) > 1 else None,))
+        want = want + want2
+        if o.exec_log != want:                  # sequential mode: in order, in the calling thread
+            probs.append("tasks executed %r, expected %r in this order" % (o.exec_log, want))
+        return probs
     if sorted(o.exec_log) != want:
         probs.append("tasks executed %r, expected each of %d once" % (o.exec_log, n_tasks))
     return probs
@@ -109,6 +117,34 @@ def ob_sched(ni: int, pos0: int, pos1: int, pk: int) -> bool:
         probs = check_outcome(o, n, cfg["return_as"])
         for m in probs:
             H.note("n_tasks=%d preempt=%r picks=%r: %s" % (n, pre, picks, m))
+        return H.verdict(not probs)
+
+
+SEQ_BATCH = [1, 2, 3, "auto"]
+SEQ_VERBOSE = [0, 1, 11, 51]
+SEQ_RETURN = ["list", "generator", "generator_unordered"]
+
+
+def ob_sequential(n_tasks: int, bs: int, vb: int, ra: int, has_len: bool) -> bool:
+    """
+    pre: 0 <= n_tasks <= 9
+    pre: 0 <= bs <= 3 and 0 <= vb <= 3 and 0 <= ra <= 2
+    post: _
+    """
+    H.enter()
+    # n_jobs=1 (also what every backend falls back to for one worker): the loop runs in the calling thread
+    n, b, v, r = H.select(n_tasks, 0, 9), H.select(bs, 0, 3), H.select(vb, 0, 3), H.select(ra, 0, 2)
+    hl = bool(has_len)
+    with H.native():
+        params = dict(H.PARAMS)
+        params.update(n_workers=1, batch_size=SEQ_BATCH[b], verbose=SEQ_VERBOSE[v], return_as=SEQ_RETURN[r])
+        cfg = _cfg(params, n)
+        cfg["calls"] = [dict(n_tasks=n, has_len=hl), dict(n_tasks=2)]
+        o = parlib.run(cfg, {})
+        probs = check_outcome(o, n, cfg["return_as"], second=2)
+        for m in probs:
+            H.note("n_jobs=1 n_tasks=%d batch_size=%r verbose=%d return_as=%s has_len=%r: %s" % (
+                n, SEQ_BATCH[b], SEQ_VERBOSE[v], SEQ_RETURN[r], hl, m))
         return H.verdict(not probs)
 
 
@@ -260,6 +296,9 @@ def obligations(tier, seed):
                     "params": {"backend": be, "return_as": "list", "pre_dispatch": "2*n_jobs", "batch_size": "auto"},
                     "timeout": 900,
                     "bounds": "batch_size='auto': 1/5/9/13/17/24 tasks, a run of 1..3 slow tasks (0.3 s or 30 s) starting at 0..15, 2 completion picks"})
+    obs.append({"name": "sequential", "fn": "ob_sequential", "mode": "S", "params": {"backend": "threading"}, "timeout": 600,
+                "bounds": "n_jobs=1: 0..9 tasks (sized or not), batch_size in {1,2,3,'auto'}, verbose in {0,1,11,51}, "
+                          "return_as list/generator/generator_unordered; then a 2-task call"})
     obs.append({"name": "counters", "fn": "ob_counters", "mode": "S", "timeout": 600,
                 "bounds": "dispatch_one_batch: input length 0..20, n_jobs 1..4, batch_size 1..4, lookahead or tail iterator"})
     return obs
